@@ -1,6 +1,8 @@
 import Vflow.Proofs.SkipV9
 import Vflow.Proofs.SkipIpfix
 import Vflow.Props.C02Flow
+import Vflow.Gen.Sites
+import Vflow.Spec.Sites
 /-!
 # C09 — an undecodable set never corrupts its neighbours; truncation never fabricates
 
@@ -594,5 +596,17 @@ theorem Ipfix.decode_skips' (c : Cache) (addr hdr pre post u : Bytes) (e : Optio
   let r := Ipfix.decode_skips c addr hdr pre post u e h k k1 c1 recs1 errs1 hh hpre hs
     (C02Flow.ipfix_terminates c addr (hdr ++ (pre ++ post)))
   ⟨r.1, r.2.1⟩
+
+/-! ## The tie of the fatal / non-fatal classification to the current source -/
+
+/-- **Tie (error classes)**: re-extracted on every run — the declaration of `nonfatalError` in ipfix/decoder.go and
+netflow/v9/decoder.go (the struct wrapper: as `type nonfatalError error`, the F4 defect, the type-switch case matches
+every error and a truncated datagram fabricates records) and every construction of one — are exactly the reviewed
+inventory in `Spec/Sites.lean`: IPFIX unknown template, zero-length record, element missing (scope / field loop) and,
+since the F30 repair, "failed to decodeData" = `Ipfix.nonfatalErr`; NetFlow v9 the same without the last =
+`Err.nonfatal`.  An error newly wrapped or unwrapped, or a changed declaration, breaks this obligation. -/
+theorem nonfatal_reviewed :
+    Gen.Sites.nonfatalIpfix = Spec.Sites.nonfatalIpfix ∧ Gen.Sites.nonfatalV9 = Spec.Sites.nonfatalV9 := by
+  decide +kernel
 
 end Vflow.C09
